@@ -59,9 +59,14 @@ def run_gen(ctx, rep, rules, only_par=False, only_tags=None, floors=None):
     pgs, skipped = all_programs(ctx, rep)
     wc = writer_classes(ctx, rep)
     n = 0
+    spec = load_spec(ctx) if only_tags else None
     for pg in pgs:
         if only_par and not pg.p.is_par:
             continue
+        if only_tags:
+            sp = spec.get(pg.crate + '::' + pg.p.path.split('::')[0]) if pg.ours else None
+            if sp is None or not (set(only_tags) & set(sp.get('tags', []))):
+                continue
         n += 1
         rep.programs.add(pg.crate + '::' + pg.p.path)
         rep.functions.add(pg.p.path + '::run')
